@@ -1,6 +1,8 @@
 //! C02 — alloc collections (Box, Arc, Dedup, BTreeMap): lookup agrees with enumeration.
-//! (std build: every `Value` temporary drags Arc drop glue through CBMC, so these are thorough-tier
-//! harnesses with small shapes; the macro-built collections are decided in the no-feature group.)
+//! NOT REGISTERED (`c02_x_*`): in the std build every `Value` temporary drags Arc drop glue through CBMC and BTreeMap's node
+//! navigation loops unroll at every level: both harnesses ran into the 3600 s cap of the thorough tier (measured twice, also with
+//! --max-field-sensitivity-array-size 1024: still in symbolic execution after 700 s). Box / Arc / Dedup / BTreeMap as property
+//! collections are therefore NOT decided (Dedup over a 3-slot map stand-in is decided inside the C13 file-writer group).
 use core::ops::ControlFlow;
 use emit::Props;
 use std::collections::BTreeMap;
@@ -47,7 +49,7 @@ pub fn coherent<P: Props + ?Sized>(p: &P, max_len: usize) {
 /// alloc wrappers and de-duplication
 #[kani::proof]
 #[kani::unwind(8)]
-pub fn c02_t_box_arc_dedup() {
+pub fn c02_x_box_arc_dedup() {
     let k0: usize = kani::any();
     let k1: usize = kani::any();
     let k2: usize = kani::any();
@@ -78,7 +80,7 @@ pub fn c02_t_box_arc_dedup() {
 
 #[kani::proof]
 #[kani::unwind(8)]
-pub fn c02_t_btreemap() {
+pub fn c02_x_btreemap() {
     let k0: usize = kani::any();
     let k1: usize = kani::any();
     kani::assume(k0 < 5 && k1 < 5);
